@@ -82,3 +82,16 @@ func WithTimeout(parent Context, timeout time.Duration) (Context, CancelFunc) {
 		cancel()
 	}
 }
+
+// Err replaces ctx.Err() in instrumented code: the answer depends on the order against a concurrent cancel,
+// so asking is a scheduling point.
+func Err(ctx Context, site string) error {
+	var err error
+	vx.ReadState(ctx.Done(), "ctx.Err", site, func() uint64 {
+		if err = ctx.Err(); err != nil {
+			return 1
+		}
+		return 0
+	})
+	return err
+}
